@@ -5,6 +5,8 @@
    Model/XmlBuild.lean), specification `docOf : AModel → Doc` (Model/AModel.lean).  Helper lemmas:
    Lemmas/C04Reader.lean, Lemmas/C04Builder.lean.  The tie to /repo is the correspondence run of checks/c04.py. -/
 import UtapModel.Lemmas.C04Builder
+import UtapModel.Model.AModelIO
+import UtapModel.Gen.XmlTables
 namespace UtapModel.AM
 
 /-- a small model using every feature: parameters, local declarations, named and anonymous locations, both location
@@ -91,22 +93,6 @@ def BTempl.objectCount (t : BTempl) : Nat × Nat × Nat × Nat × Nat :=
 
 def ATempl.objectCount (t : ATempl) : Nat × Nat × Nat × Nat × Nat :=
   (t.params.length, t.decls.length, t.locs.length, t.bps.length, t.edges.length)
-
-theorem edgeOf_isSome (t : ATempl) (hw : TemplWf t) (e : AEdge) (he : e ∈ t.edges) : (edgeOf t e).isSome = true := by
-  let T : BTempl := { name := t.name, params := [], decls := [], locs := t.locs.map locOf, bps := t.bps.map bpName, init := none, edges := [] }
-  obtain ⟨_, a, _, h2, _⟩ := endpoint_resolve T t e.src (by simp [T, List.map_map, Function.comp_def, locOf_name]) rfl hw.names (hw.edges e he).1
-  obtain ⟨_, b, _, h5, _⟩ := endpoint_resolve T t e.tgt (by simp [T, List.map_map, Function.comp_def, locOf_name]) rfl hw.names (hw.edges e he).2
-  simp [edgeOf, h2, h5]
-
-theorem filterMap_length_of_isSome {α β} (f : α → Option β) (l : List α) (h : ∀ x ∈ l, (f x).isSome = true) :
-    (l.filterMap f).length = l.length := by
-  induction l with
-  | nil => rfl
-  | cons x r ih =>
-    have hx := h x (by simp)
-    cases hfx : f x with
-    | none => simp [hfx] at hx
-    | some y => simp [List.filterMap_cons, hfx, ih (fun z hz => h z (by simp [hz]))]
 
 /-- **C04, counts.**  The built document has one template per `<template>`, and each has exactly as many parameters,
     declaration items, locations, branchpoints and edges as the XML. -/
@@ -213,5 +199,48 @@ def exceptionShapes : List (List LocKind) := [[.exponentialrate, .invariant]]
 theorem exceptionShapes_complete (a b : Key) (k1 k2 : LocKind) (hne : k1 ≠ k2) :
     labelsOrdered [(k1, a), (k2, b)] = false ↔ [k1, k2] ∈ exceptionShapes := by
   cases k1 <;> cases k2 <;> simp [labelsOrdered, exceptionShapes] at hne ⊢
+
+/-! ### tie to the current source (tables generated by translate/xml_tables.py) -/
+
+open Gen.XmlTables in
+/-- **tie, reader tables.**  The element names `begin()` knows, the label kind → grammar entry point map of
+    `XMLReader::label`, the two kinds and result codes of `XMLReader::invariant`, the id-derived names, the
+    most-recent-wins `names` map and the default of `controllable` in the model are those of the current source. -/
+theorem C04_tables_reader :
+    knownTags = Gen.XmlTables.knownTags ∧
+    (["invariant", "select", "guard", "synchronisation", "assignment", "probability"].map
+        fun k => (k, match labelPart k with
+                     | some .invariant => "S_INVARIANT" | some .select => "S_SELECT" | some .guard => "S_GUARD"
+                     | some .sync => "S_SYNC" | some .assign => "S_ASSIGN" | some .probability => "S_PROBABILITY"
+                     | _ => "?")) = edgeLabelKinds.take 6 ∧
+    (edgeLabelKinds.drop 6).map (·.1) = ["message", "update", "condition"] ∧
+    locLabelKinds = [("invariant", "S_INVARIANT", "0"), ("exponentialrate", "S_EXPONENTIAL_RATE", "1")] ∧
+    locResultCodes = [("invariant", "0"), ("exponentialrate", "1")] ∧
+    controllableDefaultTrue = true ∧ anonymousLocationPrefix = "_" ∧ branchpointPrefix = "_" ∧ namesLastWins = true := by
+  decide
+
+open Gen.XmlTables in
+/-- **tie, reader order.**  The callbacks of `XMLReader::location` and their order, the order of the parts of
+    `XMLReader::templ` and of `XMLReader::transition` are those of the model. -/
+theorem C04_tables_order :
+    (readLocation {} [("id", "i")] [.elem "urgent" [] [], .elem "committed" [] []]).out.map callName = readerLocationCallbacks ∧
+    readerTemplateOrder = ["name", "parameter", "proc_begin", "declaration", "location", "branchpoint", "init", "transition", "proc_end"] ∧
+    readerTransitionOrder = ["source", "target", "proc_edge_begin", "label", "proc_edge_end"] ∧
+    ((xmlCalls sampleModel).map callName).eraseDups.filter
+        (fun n => n ∈ ["decl_parameter", "proc_begin", "proc_location", "proc_branchpoint", "proc_location_init", "proc_edge_begin", "proc_end"])
+      = ["decl_parameter", "proc_begin", "proc_location", "proc_branchpoint", "proc_location_init", "proc_edge_begin", "proc_end"] := by
+  decide
+
+open Gen.XmlTables in
+/-- **tie, builder.**  `DocumentBuilder::proc_location` pops the rate first and hands (invariant, rate) to `add_location` in
+    that order; each label callback writes the edge field of the model; `add_edge` stores source as source and target
+    as target; `add_instance` binds `arguments[i]` to `parameters[i]`. -/
+theorem C04_tables_builder :
+    procLocationPops = [("rate", "er"), ("invariant", "inv")] ∧
+    ((step { frags := ["top", "below"], cur := some { name := "T", params := [], decls := [], locs := [], bps := [], init := none, edges := [] } }
+        (.procLocation "L" true true)).cur.map (fun t => t.locs.map (fun l => (l.rate, l.inv)))) = some [(some "top", some "below")] ∧
+    edgeLabelFields = [("proc_guard", "guard"), ("proc_sync", "sync"), ("proc_update", "assign"), ("proc_prob", "prob")] ∧
+    addEdgeEndpoints = [("src", "src"), ("dst", "dst")] ∧ addInstanceBinding = ["i", "i"] := by
+  decide
 
 end UtapModel.AM
